@@ -494,3 +494,4 @@ m('c15-r11-private-stop-flag', 'C15', 'C15-R11', 'none-from-inner:OsuGradualPerf
 m('c11-r4-owner-truncated-after-extend', 'C11', 'C11-R4', 'osu::difficulty::gradual::extend_lifetime:frozen-after-extend:osu_objects', diff='selftest/seed_diffs/C11-7.diff')
 m('c06-r3-mania-skips-stable-sort', 'C06', 'C06-R3', 'tandem-sort:every-path', diff='selftest/seed_diffs/C06-7.diff')
 m('c12-r7-state-drops-n-geki', 'C12', 'C12-R7', 'state:every-field', diff='selftest/seed_diffs/C12-7.diff')
+m('c05-r5-dual-stages-overflow-column-set', 'C05', 'C05-R5', 'column-set-width', diff='selftest/seed_diffs/C05-7.diff')
